@@ -476,6 +476,7 @@ inductive Outcome where
   | rejected (e : Err)   -- ante failed: nothing written
   | failed (e : Err)     -- messages or the fee sweep failed: only the ante branch is written
   | ok
+  deriving DecidableEq
 
 def Outcome.isOk : Outcome → Bool
   | .ok => true
@@ -599,6 +600,17 @@ def runTxs : Chain → List (Cfg × Tx) → Chain
 def runsOf : Chain → List (Cfg × Tx) → List Run
   | _, [] => []
   | c, (cfg, tx) :: rest => (deliverIn cfg c tx).2 :: runsOf (deliverIn cfg c tx).1 rest
+
+/-- `CheckTx` of one transaction on the MEMPOOL copy of the chain state (`checkState`: reset to
+the committed state at every commit, then written by each admitted transaction's ante branch). -/
+def checkIn (cfg : Cfg) (c : Chain) (tx : Tx) : Chain × Option Err :=
+  let r := checkTx cfg tx (c.view tx)
+  (c.put tx r.1, r.2)
+
+/-- The mempool state after a sequence of arriving transactions. -/
+def checkTxs : Chain → List (Cfg × Tx) → Chain
+  | c, [] => c
+  | c, (cfg, tx) :: rest => checkTxs (checkIn cfg c tx).1 rest
 
 /-! ### Nested messages as a tree
 
